@@ -415,7 +415,7 @@ def r2_flag_table(ctx):
     domm = ctx.dom(gm, gm.entry)
     em = [(n, c) for n in gm.nodes for c in node_calls(n) if _resolves(ctx, fm, c, 'xdoctest.checker._ellipsis_match')]
     for (n, c) in em:
-        got = frozenset(x for x in (canon_fact(fa) for fa in graph.guard_facts(domm, n)) if x is not None)
+        got = frozenset(x for x in (canon_fact(fa) for fa in graph.guard_facts_at(domm, n, c)) if x is not None)
         ok = got == frozenset({('key', 'ELLIPSIS', True)})
         rep.ob('C05.R2', ctx.loc(fm, c), 'ellipsis: %s' % ctx.src(c), ok,
                'wildcard matching controlled by ELLIPSIS only' if ok else 'wildcard matching is controlled by %s' % (sorted(map(_fmt_guard, got)) or 'no flag'), anchor=CM)
